@@ -329,7 +329,10 @@ func run(r *simkit.Run) {
 			s.CloneCompare(c.Bool(500, "clone-flush-first"))
 		case 14: // submit a new transaction
 			var t *MTx
-			switch k := simkit.Pick(c, "ptx-kind", 50, 25, 15, 10, 8, 5, 2, 2); k {
+			switch k := simkit.Pick(c, "ptx-kind", 50, 25, 15, 10, 8, 5, 2, 2, 3); k {
+			case 8:
+				s.disconnectScenario()
+				continue
 			case 7:
 				// more orphans than the orphan pool holds, then all the
 				// parents: evicted orphans must be gone for good
